@@ -65,3 +65,14 @@ Lemma copy_spec_l : forall f us c,
   /\ g_val (b_copy f) us c = g_val f us c /\ n_val (b_copy f) us c = n_val f us c
   /\ g_jac (b_copy f) us c = g_jac f us c /\ g_hess (b_copy f) us c = g_hess f us c.
 Proof. intros. repeat split; reflexivity. Qed.
+
+(* ---- support of a boundary ------------------------------------------------------------------ *)
+
+(* whichever route boundary() takes, the support of the result is the support of f (restricted or not)
+   with the entry of the boundary's axis removed: restrictions along the REMAINING axes are kept *)
+Lemma boundary_support_spec_l : forall ov f axis side,
+  r_boundary_support ov f axis side = remove_at axis (support_of ov f).
+Proof.
+  intros [s|] f axis side; unfold r_boundary_support, remove_at; [reflexivity|].
+  unfold support_of, boundary. cbn [kvs]. unfold remove_at. rewrite map_app, firstn_map, skipn_map. reflexivity.
+Qed.
